@@ -10,6 +10,7 @@ import (
 
 	"verif/internal/canon"
 	"verif/internal/engine"
+	"verif/internal/jsonref"
 	"verif/internal/universe"
 )
 
@@ -99,7 +100,8 @@ func c07Value(structName, typeName string) universe.Recipe {
 	return r
 }
 
-var c07Channels = []string{"registry", "json-top", "json-item", "json-list", "gob-top", "gob-item", "gob-list"}
+var c07Channels = []string{"registry", "json-top", "json-item", "json-list", "gob-top", "gob-item", "gob-list",
+	"json-top-escaped", "json-item-escaped", "json-list-escaped", "json-top-after-unknown", "json-item-after-unknown", "json-item-between-unknown"}
 
 func c07SetHooks() func() {
 	oldT, oldU, oldE := ap.ItemTyperFunc, ap.JSONItemUnmarshal, ap.IsNotEmpty
@@ -167,6 +169,77 @@ func c07Through(channel string, name string, x ap.Item) (ap.Item, error) {
 			return nil, err
 		}
 		return unhost(it, channel == "json-list")
+	case "json-top-escaped", "json-item-escaped", "json-list-escaped":
+		// the same documents with every string and member name spelled in \uXXXX escapes ("Li\u006be" is the name Like)
+		var v ap.Item = x
+		if channel != "json-top-escaped" {
+			v = host(x, channel == "json-list-escaped")
+		}
+		b, err := ap.MarshalJSON(v)
+		if err != nil {
+			return nil, err
+		}
+		node, err := jsonref.Parse(b)
+		if err != nil {
+			return nil, fmt.Errorf("library output does not parse: %v", err)
+		}
+		it, err := ap.UnmarshalJSON(jsonref.Render(node, jsonref.RenderOpts{EscapeAll: true}))
+		if err != nil || channel == "json-top-escaped" {
+			return it, err
+		}
+		return unhost(it, channel == "json-list-escaped")
+	case "json-top-after-unknown", "json-item-after-unknown", "json-item-between-unknown":
+		// an array in which a member of a type outside the vocabulary precedes (and follows) the value: the sibling must still
+		// be decoded to its Go type
+		b, err := ap.MarshalJSON(x)
+		if err != nil {
+			return nil, err
+		}
+		unknown := `{"type":"PropertyValue","name":"Pronouns","value":"they/them"}`
+		arr := "[" + unknown + "," + string(b) + "]"
+		if channel == "json-item-between-unknown" {
+			arr = "[" + unknown + "," + string(b) + "," + unknown + "]"
+		}
+		doc := arr
+		if channel != "json-top-after-unknown" {
+			doc = `{"id":"https://example.com/host","type":"Note","attachment":` + arr + `}`
+		}
+		it, err := ap.UnmarshalJSON([]byte(doc))
+		if err != nil {
+			return nil, err
+		}
+		if channel != "json-top-after-unknown" {
+			o, ok := it.(*ap.Object)
+			if !ok {
+				return nil, fmt.Errorf("host decoded as %T", it)
+			}
+			it = o.Attachment
+		}
+		var members ap.ItemCollection
+		switch l := it.(type) {
+		case ap.ItemCollection:
+			members = l
+		case *ap.ItemCollection:
+			members = *l
+		case nil:
+			return nil, nil
+		default:
+			members = ap.ItemCollection{l}
+		}
+		// the value is the member that is not the unknown one
+		for _, m := range members {
+			if m == nil {
+				continue
+			}
+			if string(m.GetType()) == "PropertyValue" {
+				continue
+			}
+			if _, custom := m.(*c07Custom); custom && name != "PropertyValue" {
+				continue
+			}
+			return m, nil
+		}
+		return nil, nil
 	case "gob-top":
 		b, err := ap.GobEncode(x)
 		if err != nil {
